@@ -110,8 +110,8 @@ theorem orIfNonEmpty {a b : Region} (ha : a.WF) (hb : b.WF) :
 tightness) -/
 theorem dset_bbox (r : Region) (p : Pix) (h : dset r p) : dset r.bbox p := by
   obtain ⟨v, hv, h1, h2, sp, hsp, h3, h4⟩ := h
-  obtain ⟨_, X2, _, _, X5, _⟩ := bboxY_x r intMax intMax (1 - intMax) (1 - intMax)
-  obtain ⟨_, Y2, _, _, Y5, _⟩ := bboxY_y r intMax intMax (1 - intMax) (1 - intMax)
+  obtain ⟨_, X2, _, _, X5, _⟩ := bboxY_x r intMax intMax (-intMax - 1) (-intMax - 1)
+  obtain ⟨_, Y2, _, _, Y5, _⟩ := bboxY_y r intMax intMax (-intMax - 1) (-intMax - 1)
   have a1 := X2 v hv sp hsp
   have a2 := X5 v hv sp hsp
   have a3 := Y2 v hv
